@@ -176,8 +176,13 @@ def changed_notebooks(ref_base, ref_remote, paths=None, repo_dir=None):
             entry.a_path, entry.a_blob, ref_base, repo_dir)
         if fa is None:
             continue
-        fb = _get_diff_entry_stream(
-            entry.b_path, entry.b_blob, ref_remote, repo_dir)
+        if entry.deleted_file and entry.b_path.endswith('.ipynb'):
+            # Deleted according to git, even if an untracked file with the
+            # same name exists in the working tree
+            fb = EXPLICIT_MISSING_FILE
+        else:
+            fb = _get_diff_entry_stream(
+                entry.b_path, entry.b_blob, ref_remote, repo_dir)
         if fb is None:
             continue
         yield (fa, fb)
